@@ -157,7 +157,13 @@ def check_cfg(fx, rep, crate, cfg):
         if run.is_cleanup(sw) or run.term(sw)['k'] != 'switch':
             continue
         info = run.switch_info(sw)
-        if info and info.get('kind') == 'discr' and info['place']['l'] in item_locals and not info['place'].get('p'):
+        pl_ = info['place'] if info and info.get('kind') == 'discr' else None
+        if pl_ is not None and pl_.get('p') == ['*']:
+            # `if let Some(reply) = &reply`: the discriminant is read through a reference to the item
+            sd = run.single_def(pl_['l'])
+            if sd and sd[2] == 'assign' and sd[3]['rv']['k'] == 'ref' and not sd[3]['rv']['place'].get('p'):
+                pl_ = sd[3]['rv']['place']
+        if pl_ is not None and pl_['l'] in item_locals and not pl_.get('p'):
             none_t = info['arms'].get(0, info['otherwise'])
             some_t = info['arms'].get(1, info['otherwise'])
     if none_t is None:
@@ -228,6 +234,26 @@ def check_cfg(fx, rep, crate, cfg):
             if l is not None:
                 path = tuple(x for x in items_s.get(l, ('?',)) if x != 'Ok')
                 item_ok = path in (('1', 'Some'), ('1', 'Some', '0'))
+            elif aq:
+                # `if let Some(reply) = &item`: the operand is `&((*r) as Some).0` with r = &item
+                q_ = aq
+                for _ in range(4):
+                    sd = run.single_def(q_['l']) if not q_.get('p') else None
+                    if sd and sd[2] == 'assign' and sd[3]['rv']['k'] in ('use', 'cast') and op_place(sd[3]['rv']['op']):
+                        q_ = op_place(sd[3]['rv']['op'])
+                        continue
+                    if sd and sd[2] == 'assign' and sd[3]['rv']['k'] == 'ref' and sd[3]['rv']['place'].get('p') == ['*']:
+                        q_ = {'l': sd[3]['rv']['place']['l']}       # reborrow `&*r`
+                        continue
+                    break
+                sd = run.single_def(q_['l']) if not q_.get('p') else None
+                if sd and sd[2] == 'assign' and sd[3]['rv']['k'] == 'ref':
+                    pp = sd[3]['rv']['place']
+                    pr = pp.get('p') or []
+                    if pr[:1] == ['*'] and len(pr) == 3 and isinstance(pr[1], dict) and pr[1].get('dc') == 'Some' and isinstance(pr[2], dict) and pr[2].get('f') == 0:
+                        base = ref_target_local(run, {'l': pp['l']})
+                        if base is not None:
+                            item_ok = tuple(x for x in items_s.get(base, ('?',)) if x != 'Ok') == ('1',)
             rep.check(item_ok, 'R10.2', '%s|sent-item-is-yielded-item|%s' % (fk, cfg), C.where(run, b),
                       'the reply handed to the send is the item yielded by the stream select, unchanged (same local, by reference)',
                       'the reply sent to the subscriber is not the item the stream yielded (rebuilt or different value: continues flag / parameters may differ)')
